@@ -120,8 +120,9 @@ class Tokenizer:
             # empty params
             return self._stack.pop()
 
-        assert start is not None
-        assert end is not None
+        if start is None or end is None:
+            # nothing at all between two commas: skipped like a whitespace-only argument
+            return TokenInfo(Token.WS, "", tok.start, tok.start, tok.line)
         if not string.strip():
             return TokenInfo(Token.WS, string, start, end, line)
         return TokenInfo(Token.MACRO_PARAM, string, start, end, line)
